@@ -775,3 +775,142 @@ pub mod verif_hooks {
         double_large_factor(n)
     }
 }
+
+/// Verification hooks (only with `--cfg yamaquasi_verif`): runs the real sieve of the class group
+/// computation one polynomial at a time and reports, for each polynomial, its coefficients, the
+/// signed factors returned by `Poly::factors` and the relations `sieve_block_poly` handed to a
+/// fresh `CRelationSet` (C18). The setup is the one of `classgroup()`.
+#[cfg(yamaquasi_verif)]
+pub mod verif_hooks_cls {
+    use super::*;
+    use crate::arith::I256;
+
+    pub struct PolyTrace {
+        pub type2: bool,
+        pub a: I256,
+        pub b: I256,
+        pub c: I256,
+        /// primes of A with the stored square root r
+        pub afactors: Vec<(u64, u64)>,
+        /// `Poly::factors`
+        pub qfacs: Vec<(u64, i64)>,
+        /// emitted relations, then the stored (partial / double) ones in key order
+        pub rels: Vec<CRelation>,
+    }
+
+    pub struct SieveTrace {
+        /// factor base (p, r) built for D or D/4
+        pub fb: Vec<(u32, u32)>,
+        pub conductor_primes: Vec<u64>,
+        pub maxlarge: u64,
+        pub maxdouble: u64,
+        pub interval_size: usize,
+        pub polys: Vec<PolyTrace>,
+    }
+
+    /// Sieves polynomials number `first_poly .. first_poly + max_polys` (in the order of the
+    /// single-threaded loop of `classgroup()`), each into a fresh relation set that stops the
+    /// sieve once more than `target` complete relations are present.
+    pub fn vh_sieve_polys(
+        d: &Int,
+        prefs: &Preferences,
+        first_poly: usize,
+        max_polys: usize,
+        target: usize,
+    ) -> SieveTrace {
+        let dabs = d.unsigned_abs();
+        let bias = smoothness_bias(d);
+        let adjsize = max(1, dabs.bits() as i64 - (2.5 * bias).round() as i64) as u32;
+        let use_double = prefs.use_double.unwrap_or(adjsize > 180);
+        let fb = prefs.fb_size.unwrap_or(clsgrp_fb_size(adjsize, use_double));
+        let dred = if dabs.low_u64() & 3 == 0 { *d >> 2 } else { *d };
+        let fbase = FBase::new(dred, fb);
+        let mut conductor_primes = vec![];
+        for idx in 0..fbase.len() {
+            let pr = fbase.prime(idx);
+            if pr.r == 0 && dred.unsigned_abs() % (pr.p * pr.p) == 0 {
+                conductor_primes.push(pr.p);
+            }
+        }
+        let mm = prefs.interval_size.unwrap_or(interval_size(adjsize));
+        let (a_count, nfacs) = a_params(adjsize);
+        let factors =
+            select_siqs_factors(&fbase, &dred, nfacs as usize, mm as usize, prefs.verbosity);
+        let a_ints = select_a(&factors, a_count as usize, prefs.verbosity);
+        let maxprime = fbase.bound() as u64;
+        let maxlarge: u64 = maxprime * prefs.large_factor.unwrap_or(large_prime_factor(adjsize));
+        let maxlarge = min(maxlarge, (1 << 32) - 1);
+        let maxdouble = if use_double {
+            maxprime * maxprime * double_large_factor(&d)
+        } else {
+            0
+        };
+        let qs = siqs::SieveSIQS::new(dred, &fbase, maxlarge, maxdouble, mm as usize, prefs);
+        let s = ClSieve {
+            d: *d,
+            qs,
+            conductor_primes: conductor_primes.clone(),
+            prefs,
+            rels: RwLock::new(CRelationSet::new(*d, target, maxlarge as u32, None)),
+            done: AtomicBool::new(false),
+            polys_done: AtomicUsize::new(0),
+        };
+        let mut polys = vec![];
+        let mut count = 0usize;
+        'outer: for a_int in a_ints.iter() {
+            let mm = s.qs.interval_size;
+            let start_offset = if a_int.is_one() { 0 } else { -(mm as i64) / 2 };
+            let a = &prepare_a(&factors, a_int, s.qs.fbase, start_offset);
+            let nfacs = a.len();
+            let polys_per_a = if nfacs > 1 { 1 << (nfacs - 1) } else { 1 };
+            let mut pol = Poly::first(&s.qs, a);
+            for idx in 0..polys_per_a {
+                if idx > 0 {
+                    pol.next(&s.qs, a);
+                }
+                if count >= first_poly {
+                    *s.rels.write().unwrap() =
+                        CRelationSet::new(*d, target, maxlarge as u32, None);
+                    siqs_sieve_poly(&s, a, &pol, None);
+                    let set = s.rels.read().unwrap();
+                    let mut rels = set.emitted.clone();
+                    for (_, r) in crate::relationcls::verif_hooks::vh_doubles(&set) {
+                        rels.push(r);
+                    }
+                    drop(set);
+                    let (_, type2, pa, pb, pc, _, _, _) =
+                        siqs::verif_hooks_poly::vh_poly_fields(&pol);
+                    let (_, aprimes, _, _, _, _, _) = siqs::verif_hooks_poly::vh_a_fields(a);
+                    let afactors = aprimes
+                        .iter()
+                        .map(|&p| {
+                            let i = fbase.idx(p as u32).unwrap();
+                            (p, fbase.r(i) as u64)
+                        })
+                        .collect();
+                    polys.push(PolyTrace {
+                        type2,
+                        a: pa,
+                        b: pb,
+                        c: pc,
+                        afactors,
+                        qfacs: pol.factors(a),
+                        rels,
+                    });
+                    if polys.len() >= max_polys {
+                        break 'outer;
+                    }
+                }
+                count += 1;
+            }
+        }
+        SieveTrace {
+            fb: (0..fbase.len()).map(|i| (fbase.p(i), fbase.r(i))).collect(),
+            conductor_primes,
+            maxlarge,
+            maxdouble,
+            interval_size: s.qs.interval_size,
+            polys,
+        }
+    }
+}
